@@ -63,3 +63,12 @@ package postprocessor
 //@ ensures [unreadable-body-fails-the-step] imp(calls(io.ReadAll) == 1 && result_of(io.ReadAll, 1) != nil, result1 != nil)
 //@ ensures [wrong-size-fails-the-step] imp(result1 == nil && a.Size != nil && (a.Size.Op == "eq" || a.Size.Op == "="), a.Size.Val == len(b))
 //@ ensures [unknown-size-operator-is-an-error] imp(a.Size != nil && a.Size.Op != "eq" && a.Size.Op != "=" && a.Size.Op != "lt" && a.Size.Op != "<" && a.Size.Op != "gt" && a.Size.Op != ">", result1 != nil)
+
+// Decoding a size assertion: a negative size and an unknown operator are rejected when the description is read.
+//@ func (a AssertResponse) Validate
+//@ props C13 C15
+//@ modifies nothing
+//@ ensures [no-size-assertion-is-fine] imp(a.Size == nil, result == nil)
+//@ ensures [negative-size-is-rejected] imp(a.Size != nil && a.Size.Val < 0, result != nil)
+//@ ensures [unknown-operator-is-rejected] imp(a.Size != nil && a.Size.Op != "eq" && a.Size.Op != "=" && a.Size.Op != "lt" && a.Size.Op != "<" && a.Size.Op != "gt" && a.Size.Op != ">", result != nil)
+//@ ensures [well-formed-size-assertion-is-accepted] imp(a.Size != nil && a.Size.Val >= 0 && (a.Size.Op == "eq" || a.Size.Op == "=" || a.Size.Op == "lt" || a.Size.Op == "<" || a.Size.Op == "gt" || a.Size.Op == ">"), result == nil)
